@@ -240,6 +240,8 @@ def v3_structure_deviations(M: Mol, tier="quick"):
                 yield (f"explicit0[{i}].{k}", {"explicit_zero": [(i, k)]})
         if a.el == "H" and a.mass in (2, 3):
             yield (f"DT[{i}]", {"dt": [i]})
+            # the symbol D/T together with the explicitly written default MASS=0 still denotes hydrogen-2/3
+            yield (f"DT[{i}]+explicit0.MASS", {"dt": [i], "explicit_zero": [(i, "MASS")]})
         nprops = len(present)
         for tok in EXTRA_ATOM_KW:
             for slot in range(nprops + 1):
@@ -268,8 +270,13 @@ def v3_structure_deviations(M: Mol, tier="quick"):
     # star atoms: every subset of >=2 same-type bonds at one atom
     for c in range(n):
         inc = [j for j, (a, b, t) in enumerate(M.bonds) if c in (a, b)]
-        for k in range(2, len(inc) + 1):
-            for sub in combinations(inc, k):
+        if len(inc) > 6:
+            subsets = [tuple(inc), tuple(inc[:-1]), tuple(inc[:10]), tuple(inc[:9]), tuple(inc[1:12])]
+            subsets = list(dict.fromkeys(x for x in subsets if len(x) >= 2))
+        else:
+            subsets = [sub for k in range(2, len(inc) + 1) for sub in combinations(inc, k)]
+        for sub in subsets:
+            for _once in (0,):
                 if len({M.bonds[j][2] for j in sub}) != 1:
                     continue
                 for star_first in (False, True):
